@@ -404,7 +404,15 @@ func (sc *scenario) inboundPublish() []byte {
 func (sc *scenario) hostilePacket() []byte {
 	// acknowledgements carrying exactly the identifier that is next in line, for transfers
 	// that do not exist (yet): the boundary of the in-order guards
-	switch sc.r.intn(16) {
+	switch sc.r.intn(19) {
+	case 16:
+		// PUBREL (legal for any identifier: the client answers PUBCOMP) carrying the identifier of
+		// one of the CLIENT's own pending transfers: the two key spaces must stay apart
+		return ack4(0x62, 0x8000|uint16((sc.seen1-1)&0x3fff))
+	case 17:
+		return ack4(0x62, 0xc000|uint16((sc.seen2-1)&0x3fff))
+	case 18:
+		return ack4(0x62, 0xc000|uint16(sc.recd2&0x3fff))
 	case 10:
 		return ack4(0x40, 0x8000|uint16(sc.seen1&0x3fff))
 	case 11:
